@@ -29,6 +29,7 @@ CONSTANTS Clients,     \* client ids 1..N
           Creators,    \* clients that open the key with Create
           Subscribers, \* ... with Subscribe; all others use SubscribeOrCreate
           OtherType,   \* clients that open the key as another datatype type (List instead of Counter)
+          MaxPre,      \* local operations a Subscribe-only datatype may make before it is subscribed
           MaxOps,      \* local operations per client
           MaxSends,    \* requests created in total
           MaxServes,   \* how often one request may reach the server (2 = duplication)
@@ -73,7 +74,9 @@ Open(c) ==
 
 Local(c) ==
     /\ cl[c].state # "closed" /\ cl[c].seq < MaxOps + 1
-    /\ cl[c].state # "dueSub"          \* a datatype that only subscribes has no state to work on yet
+    \* a datatype that only subscribes can be used before its first sync as well: what it does locally
+    \* until then is dropped when the subscription arrives, like for SubscribeOrCreate
+    /\ cl[c].state = "dueSub" => cl[c].seq < MaxPre
     /\ c \notin OtherType              \* clients of the other type only exercise the entry contract
     /\ cl' = [cl EXCEPT ![c].seq = @ + 1, ![c].applied = Append(@, OpId(c, cl[c].seq + 1)),
                         ![c].buf = Append(@, OpId(c, cl[c].seq + 1))]
